@@ -10,7 +10,13 @@ use serde_json::json;
 
 pub struct C17;
 
-fn corpus() -> Vec<(&'static str, P)> {
+/// built once per process
+fn corpus() -> &'static Vec<(&'static str, P)> {
+    static C: std::sync::OnceLock<Vec<(&'static str, P)>> = std::sync::OnceLock::new();
+    C.get_or_init(corpus_build)
+}
+
+fn corpus_build() -> Vec<(&'static str, P)> {
     let e = |l: u64, s: &[usize], t: &[usize]| PEdge { l, s: s.to_vec(), t: t.to_vec() };
     let mut v = gen::corpus_shapes();
     v.push(("isolated_node_off_interface", POh { w: vec![0, 0], e: vec![], s: vec![0], t: vec![0] }));
@@ -20,6 +26,17 @@ fn corpus() -> Vec<(&'static str, P)> {
     v.push(("non_injective_interface", POh { w: vec![0], e: vec![], s: vec![0, 0], t: vec![0] }));
     v.push(("interface_node_with_indegree", POh { w: vec![0, 0], e: vec![e(0, &[0], &[0])], s: vec![0], t: vec![0] }));
     v.push(("many_parallel", POh { w: vec![0, 0], e: vec![e(0, &[0, 0, 0, 0], &[1, 1, 1, 1]); 4], s: vec![0], t: vec![1] }));
+    // node-level graphs of some size: a path of 3000 operations (acyclic and monogamous), the same path
+    // closed by one back reference, one 64 -> 64 operation, and one operation joining two nodes 64 x 64 times
+    v.push(("long_path", super::c15::chain(3_000, 3)));
+    {
+        let mut p = super::c15::chain(3_000, 5);
+        let last = p.w.len() - 1;
+        p.e[0].s.push(last);
+        v.push(("long_path_closed", p));
+    }
+    v.push(("one_wide_operation", POh { w: vec![0; 128], e: vec![e(0, &(0..64).collect::<Vec<_>>(), &(64..128).collect::<Vec<_>>())], s: (0..64).collect(), t: (64..128).collect() }));
+    v.push(("multiplicity_64x64", POh { w: vec![0, 0], e: vec![e(0, &[0; 64], &[1; 64])], s: vec![0], t: vec![1] }));
     v
 }
 
